@@ -304,16 +304,26 @@ def run(ctx):
         ctx.check('C09.N2', scaled or 'char' in ty or 'void' in ty, rd.name, '%s:unscaled-size' % e['name'], rd.where(e),
                   '%s over `%s` uses a byte count scaled by the element size' % (e['name'], ty))
         cmp_loop = cmp_loop or scaled
+    # third idiom: std::equal / std::mismatch over [nodes, nodes + node_count) against the recorded array
+    for e in rd.events('call'):
+        ln = lastname(e.get('name') or '').split('<')[0]
+        if ln in ('equal', 'mismatch') and len(e.get('args') or []) >= 3:
+            a = [dstr(deep_resolve(rd, x)).replace(' ', '') for x in e['args'][:3]]
+            span = ('nodes' in a[0] and a[1].replace('(', '').replace(')', '') in (a[0].replace('(', '').replace(')', '') + '+node_count',)) or \
+                ('node_count' in a[1] and a[0] in a[1])
+            other = 'DepsLog::Deps::nodes' in a[2] or 'DepsLog::Deps::nodes' in a[0]
+            cmp_loop = cmp_loop or (span and other)
     ctx.check('C09.N2', cmp_loop, rd.name, 'unchanged-check:not-elementwise', rd.loc,
-              'the unchanged-record shortcut compares every dependency pointer')
+              'the unchanged-record shortcut compares every dependency pointer (element loop, scaled memcmp or std::equal over node_count elements)')
     for e in rd.events('ret'):
         if const_value(e.get('e')) == 1 and not any(x['k'] == 'call' and x.get('name') == 'fflush' for x in rd.events('call') if rd.dominates_ev(x, e)):
             facts = rd.facts_at(e)
             ctx.check('C09.N2', fact_holds(facts, is_var('made_change'), False), rd.name, 'early-success:guard', rd.where(e),
                       'success without writing only when nothing changed')
     mcw = [(e, e.get('r')) for e in rd.events('asg') if is_var('made_change')(e['l'])]
-    ctx.check('C09.N2', all(const_value(r) == 1 for e, r in mcw) and len(mcw) >= 4, rd.name, 'made_change:writers', rd.loc,
-              'made_change is only ever set to true (%d sites: new ids, no/different record, element differs)' % len(mcw))
+    ctx.check('C09.N2', len(mcw) >= 2 and all(const_value(r) == 1 or fact_holds(rd.facts_at(e), is_var('made_change'), False) for e, r in mcw),
+              rd.name, 'made_change:writers', rd.loc,
+              'made_change is never reset: every write stores true or happens while it is still false (%d sites)' % len(mcw))
     for k in ('DepsLog::Deps::mtime', 'DepsLog::Deps::node_count'):
         ok = any(k in dstr(b['term'].get('cond')) for b in rd.blocks.values() if b.get('term'))
         ctx.check('C09.N2', ok, rd.name, 'unchanged-check:%s' % k.split('::')[-1], rd.loc, 'the shortcut compares %s' % k.split('::')[-1])
@@ -355,7 +365,7 @@ def run(ctx):
                                        (lambda a: mentions_call(a, 'DepsLog::IsDepsEntryLiveFor') or
                                         ('"deps"' in dstr(a) and 'Node::in_edge' in dstr(a)), False)],
                                       'an entry is dropped only if it is empty or no longer live', 'Recompact:extra-skip')
-        a = rec[0]['args']
+        a = [deep_resolve(rp, x) for x in rec[0]['args']]
         ctx.check('C09.W1', 'DepsLog::Deps::mtime' in dstr(a[1]) and 'DepsLog::Deps::node_count' in dstr(a[2]) and
                   'DepsLog::Deps::nodes' in dstr(a[3]) and 'old_id' in dstr(a[0]), rp.name, 'Recompact:record-args', rp.where(rec[0]),
                   'the entry is re-recorded with its own node, mtime, count and nodes')
